@@ -245,8 +245,11 @@ class Recorder:
             h = case_hash(case)
             if h not in self.nontrivial:
                 self.nontrivial.add(h)
-                if len(self.nt_samples) < 3:
-                    self.nt_samples.append(_sample_repr(case))
+                # keep the three non-trivial cases with the smallest descriptor hash: a deterministic
+                # selection spread over the whole run (the first cases Hypothesis draws are minimal)
+                self.nt_samples.append((h, _sample_repr(case)))
+                self.nt_samples.sort(key=lambda t: t[0])
+                del self.nt_samples[3:]
         if len(self.samples) < 2:
             self.samples.append(_sample_repr(case))
         self.last = case
@@ -270,7 +273,7 @@ class Recorder:
         raise _Fail(v.kind)
 
     def result(self, shard, wall) -> dict:
-        samples = list(self.samples) + list(self.nt_samples)
+        samples = [s for _, s in self.nt_samples] + list(self.samples[:1])
         if self.last is not None:
             samples.append(_sample_repr(self.last))
         return {
